@@ -72,7 +72,7 @@ from werkzeug.utils import secure_filename, send_from_directory  # noqa: E402
 J_CORE = ["..", ".", "", "/", "a", "a/..", "a/../..", "../a", "..a", "./..", "/etc", "a/./.."]
 J_EXTRA = ["//", "\\", "C:", "~", "%2e%2e", "a\0b", "a.b", ".a", "..\\a", "a//..//..", "...", "../"]
 J_ATOMS = J_CORE + J_EXTRA
-J_HOSTILE = J_CORE + ["//", "\\", "a\0b", "../"]
+J_HOSTILE = J_CORE + ["//", "\\", "a\0b", "../", "%2e%2e", "..\\a", "a//..//..", "..."]
 assert all(a in J_ATOMS for a in J_HOSTILE)
 # segments that only become '.' / '..' after a transformation somebody might apply *after* validation (dropping
 # NUL, stripping blanks, unquoting, folding backslash / fullwidth forms, removing a drive prefix or a '../' once)
@@ -153,7 +153,7 @@ E_SHIELD = ["\0.", "\0..", "..\0", ".\0", " ..", ".. ", "\t..", "\\..", "..:", "
             "..\\secret.txt", "．．", "..／secret.txt", "....//", "..././", "%2e%00%2e"]
 E_SMALL = ["..", ".", "secret.txt", "sub", "f.txt"]
 E_HOSTILE = ["..", ".", "", "f.txt", "sub", "secret.txt", "%2e%2e", "<T>", "..%2f", "\\", "a\0b", "%2f", "rootx", "g.txt", "sub/..", "../secret.txt"]
-E_SHIELD_HOSTILE = ["\0.", "\0..", "..\0", " ..", "\\..", "%00..", "%252e%252e"]
+E_SHIELD_HOSTILE = ["\0.", "\0..", "..\0", " ..", "\\..", "%00..", "%252e%252e", ".\0", "..:", "．．", "....//"]
 assert all(a in E_ATOMS for a in E_HOSTILE) and all(a in E_SHIELD for a in E_SHIELD_HOSTILE)
 SERVERS = ["send_from_directory", "sdm_dir", "sdm_root", "sdm_pkg", "send_from_directory_rel",
            "send_from_directory_pathlike", "sdm_file", "sdm_disallow", "sdm_pkg_empty", "sdm_pkg_dot",
@@ -351,7 +351,7 @@ def check_e2e(tree: Tree, server: str, template: str):
 
 S_ATOMS = [".", "/", "\\", " ", "_", "-", "a", "é", "／", "．", "\0", "‮", "\t", "․", "　"]
 S_CONTEXTS = ["{c}", "a{c}b", "{c}a", "a{c}", "{c}.a", ".{c}a"]
-S_CONTEXTS_ASTRAL = ["{c}.a", "a{c}b", "{c}", ".{c}a"]
+S_CONTEXTS_ASTRAL = S_CONTEXTS
 SWEEP_CHUNK = 0x1000
 
 
@@ -557,8 +557,7 @@ def run_unit(unit, R, tier):
                 R.violation(bad[0], {"kind": "secure", "sig": bad[0], "input": s, "detail": bad[1]})
     elif kind == "nt":
         _, idx, n = unit
-        depth = 4 if tier == "thorough" else 3
-        for s in gen.shard(itertools.chain(gen.strings(NT_ATOMS, depth), gen.strings(S_ATOMS, 3)), n, idx):
+        for s in gen.shard(itertools.chain(gen.strings(NT_ATOMS, 4), gen.strings(S_ATOMS, 3)), n, idx):
             R.ev()
             R.count("secure_nt_cases")
             bad = secure_bad_nt(s)
